@@ -10,10 +10,10 @@ Section SemProofs.
   Notation step := (step fmt_name cw).
   Notation exec_obj := (exec_obj fmt_name cw).
   Notation builtin_step := (builtin_step fmt_name cw).
-  Notation bigsteps := (bigsteps fmt_name cw).
-  Notation bigstep := (bigstep fmt_name cw).
-  Notation callv := (callv fmt_name cw).
-  Notation whilerel := (whilerel fmt_name cw).
+  Notation bigsteps := (bigsteps fmt_name cw (model_simple fmt_name cw)).
+  Notation bigstep := (bigstep fmt_name cw (model_simple fmt_name cw)).
+  Notation callv := (callv fmt_name cw (model_simple fmt_name cw)).
+  Notation whilerel := (whilerel fmt_name cw (model_simple fmt_name cw)).
 
   (* built-ins that run no code do not look at rec / wh *)
   Lemma builtin_simple rec wh rec' wh' b st : control b = false ->
@@ -86,7 +86,7 @@ Section SemProofs.
           apply bind_ok in H as ([f s1] & P1 & H). apply pop_ok in P1 as (r1 & S1 & ->).
           apply bind_ok in H as ([p s2] & P2 & H). apply pop_ok in P2 as (r2 & S2 & ->).
           cbn in S2. subst r1. eapply BS_while; eauto.
-      - eapply BS_builtin; eauto. rewrite <- H. apply builtin_simple. exact C.
+      - eapply BS_builtin; eauto. unfold model_simple. rewrite <- H. apply builtin_simple. exact C.
     Qed.
 
     Lemma step_sound st i st' : step rec wh st i = Ok st' -> bigstep st i st'.
@@ -195,7 +195,7 @@ Section SemProofs.
     - (* call *) intros st name body st' Hv _ [n H]. exists n. cbn. rewrite Hv. exact H.
     - (* var *) intros st name o st' Hv N1 N2 H. exists 0. cbn. rewrite Hv.
       rewrite <- H. apply obj_simple; assumption.
-    - (* simple builtin *) intros st name b st' Hv C H. exists 0. cbn. rewrite Hv. cbn.
+    - (* simple builtin *) intros st name b st' Hv C H. unfold model_simple in H. exists 0. cbn. rewrite Hv. cbn.
       rewrite <- H. apply builtin_simple. exact C.
     - (* if true *) intros st name f1 f2 z r st' Hv Hs Hz _ [n H]. exists n. cbn. rewrite Hv.
       cbn [Bst.exec_obj]. rewrite (if_true fmt_name cw _ _ _ _ _ _ _ Hs Hz). exact H.
